@@ -152,6 +152,46 @@ def arity_survey():
     return out
 
 
+def reject_agreement():
+    """concrete (labelled): every class sequence of length <= 2 over all lexical classes, spelled canonically - what the real lexer + parser reject
+    must be rejected by the translation of a cell holding that text as well (a formula is never quietly emitted as something else).
+    -> list of offending texts"""
+    import itertools
+    from excel2pycl.src.ast_builder import AstBuilder
+    from excel2pycl.src.cell import Cell
+    from excel2pycl.src.exceptions import E2PyclException
+    from excel2pycl.src.lexer import Lexer
+    T, LEX, IDX = pc.tables()
+    names = [c.__name__ for c in LEX]
+    bad, n = [], 0
+    for L in (0, 1, 2):
+        for seq in itertools.product(names, repeat=L):
+            text = pc.canonical_text(list(seq))
+            try:
+                toks = Lexer.parse(text, Cell(0, 0, 0))
+                try:
+                    core = 'accepted' if AstBuilder.parse(list(toks), Cell(0, 0, 0)) is not None else 'rejected'
+                except E2PyclException:
+                    core = 'rejected'
+                except Exception:
+                    continue            # a foreign exception of the parser core is group 1's subject
+            except E2PyclException:
+                core = 'rejected'
+            except Exception:
+                continue
+            n += 1
+            try:
+                src = translate_grid(text)
+                out = 'emitted'
+            except E2PyclException:
+                out = 'rejected'
+            except Exception:
+                out = 'failed'          # accepted by the grammar, a translator failed later: C06's subject
+            if core == 'rejected' and out == 'emitted':
+                bad.append(text)
+    return dict(bad=bad[:5], n=n)
+
+
 def run(report, tier, seed):
     t0 = time.time()
     T, LEX, IDX = pc.tables()
@@ -191,6 +231,16 @@ def run(report, tier, seed):
         report.note(f'argument counts the pinned grammar tables define beyond Excel\'s documented arity (defined by the grammar, hence inside the property): {wider}')
     else:
         report.condition('arity.survey', 'concrete', 'inconclusive', detail=str(surv)[:200])
+    # group 5: rejection at parser level = rejection at translation level (concrete)
+    ra = e2.run_jobs([('reject_agreement', reject_agreement, ())], 1, deadline=900)['reject_agreement']
+    if isinstance(ra, dict) and 'error' not in ra:
+        if ra['bad']:
+            report.condition('reject.translation_level', 'concrete', 'violated', 0, ra['n'], f'rejected by the parser but emitted by the translation: {ra["bad"]}')
+            report.violation('reject.translation_level', ra['bad'][0], f'the lexer/parser reject {ra["bad"][0]!r} but the translation of a cell holding it emits code instead of raising the parser exception')
+        else:
+            report.condition('reject.translation_level', 'concrete', 'holds', 0, ra['n'], 'every canonical class sequence of length <= 2 that the parser rejects is rejected by the cell translation as well')
+    else:
+        report.condition('reject.translation_level', 'concrete', 'inconclusive', detail=str(ra)[:200])
     report.extra['function_alternatives'] = len(inst)
     report.extra['lexical_classes'] = N
     report.encoded('AstBuilder.parse', 'EntryPointToken.get', 'CompositeBaseToken.get', 'RecursiveCompositeBaseToken.get_token_sets', 'every *_TOKEN_SETS table',
